@@ -114,6 +114,7 @@ type PipelineDef struct {
 }
 
 type Prog struct {
+	StaticRagged bool // nested map call over a literal array of arrays of different lengths
 	ArrayOfMaps bool // holds the nested map call over an array of typed maps (KF-C03-2)
 	NameClash bool // an explicit output name equals a later output\'s default name (the compiler should refuse)
 	NullOuts map[string]bool // "STAGE.out": the stage always returns null for it
